@@ -17,6 +17,7 @@ import (
 	"strconv"
 	"strings"
 	"sync"
+	"syscall"
 	"time"
 )
 
@@ -79,6 +80,7 @@ func NewRun(id, tier string) *Run {
 			seed = v
 		}
 	}
+	ensureDiskSpace()
 	scratch, err := os.MkdirTemp("", "verif-"+id+"-")
 	if err != nil {
 		panic(err)
@@ -537,4 +539,20 @@ func WriteFile(path, content string) error {
 		return err
 	}
 	return os.WriteFile(path, []byte(content), 0o644)
+}
+
+// ensureDiskSpace: every generated batch is compiled, and the go command keeps each compiled package in its
+// build cache for days; a long series of runs fills the disk (135 GB were seen). Before a run starts, a file
+// system with less than 25 GB free gets the build cache emptied (the next build recompiles the standard library).
+func ensureDiskSpace() {
+	var st syscall.Statfs_t
+	if err := syscall.Statfs(os.TempDir(), &st); err != nil {
+		return
+	}
+	free := st.Bavail * uint64(st.Bsize)
+	if free >= 25<<30 {
+		return
+	}
+	fmt.Fprintf(os.Stderr, "only %d GB free: emptying the go build cache\n", free>>30)
+	Exec("", GoEnv(), 10*time.Minute, "", "go", "clean", "-cache")
 }
